@@ -8,6 +8,10 @@ use super::*;
 
 const STEPS: usize = 4;
 
+// Work-around for a kani-compiler 0.68 internal error on catch_unwind (reached through the destructor
+// registration of parking_lot_core's thread-local ThreadData); thread exit is never reached by the script.
+fn noop_thread_cleanup() {}
+
 fn script() {
     let init: u32 = kani::any();
     let cell: PtrMut<u32> = PtrMut::from(init);
@@ -138,6 +142,7 @@ fn c19_cell_protocol_rc() {
 // @mem 12
 #[kani::proof]
 #[kani::unwind(6)]
+#[kani::stub(std::rt::thread_cleanup, noop_thread_cleanup)]
 fn c19_cell_protocol_arc() {
     script();
 }
